@@ -433,6 +433,12 @@ impl Substream {
             "send framed"
         );
 
+        // Frames accepted by the `Sink` (possibly written only partially) must reach the
+        // transport before this frame, otherwise the messages are reordered or interleaved.
+        if self.pending_out_frame.is_some() || !self.pending_out_frames.is_empty() {
+            futures::SinkExt::flush(&mut *self).await?;
+        }
+
         match &mut self.substream {
             #[cfg(test)]
             SubstreamType::Mock(ref mut substream) =>
